@@ -82,17 +82,19 @@ let show_res (io : 'k kio) (r : 'k nnres) : string =
   | RRemoved (Some v) -> "R1:" ^ string_of_int (int_of_z v)
   | RErr -> "err"
 
-let run_model (io : 'k kio) cmp t init ops : string =
+let run_model (io : 'k kio) cmp t init ops every : string =
   let root = seal_root (parse_tree io init) in
   let out = nn_run cmp (z_of_int t) root (parse_ops io ops) in
   let b = Buffer.create 4096 in
+  let nops = List.length out in
   List.iteri (fun i ((r, w), tree) ->
     if i > 0 then Buffer.add_char b ';';
     Buffer.add_string b (show_res io r);
     let w = int_of_z w in
     if w > 0 then Buffer.add_string b ("w" ^ string_of_int w);
     Buffer.add_char b '@';
-    show_tree io b tree) out;
+    if every <= 1 || (i + 1) mod every = 0 || i + 1 = nops then show_tree io b tree
+    else Buffer.add_char b '#') out;
   Buffer.contents b
 
 let run_spec (io : 'k kio) cmp init ops : string =
@@ -108,6 +110,7 @@ let run_wf (io : 'k kio) cmp t line : string =
     | None -> "?nodump"
     | Some a ->
       let d = String.sub step (a + 1) (String.length step - a - 1) in
+      if d = "#" then "-" else
       (try
         let tree = parse_tree io d in
         string_of_int (int_of_z (wf_code cmp (z_of_int t) tree)) ^ ":[" ^ show_pairs io (nn_abs tree) ^ "]"
@@ -115,9 +118,10 @@ let run_wf (io : 'k kio) cmp t line : string =
 
 let () =
   register "nn" (fun args -> match args with
-    | [kind; t; init; ops] ->
-      if kind = "name" then run_model kio_name nn_scmp (int_of_string t) init ops
-      else run_model kio_num nn_zcmp (int_of_string t) init ops
+    | kind :: t :: init :: ops :: rest ->
+      let every = match rest with [e] -> int_of_string e | _ -> 1 in
+      if kind = "name" then run_model kio_name nn_scmp (int_of_string t) init ops every
+      else run_model kio_num nn_zcmp (int_of_string t) init ops every
     | _ -> "?args");
   register "nnspec" (fun args -> match args with
     | [kind; init; ops] ->
